@@ -130,6 +130,9 @@ void World::check_all(const char *when) {
     if (!v.empty()) {
         if (cfg.judge_memory || cfg.judge_hooks) violation(cfg.judge_hooks ? "hooks-ledger" : "ledger", v + " [" + when + "]");
         if (ledger_judged_from_target && cur_step >= crash_judged_from) violation("ledger-after-failure", v + " [" + when + "]");
+        // C16 "neither crashes nor leaks": handing the allocator a pointer it never returned (or one it already took back) IS a crash
+        // with any real allocator; the simulated one records it instead of dying
+        if (cfg.property == "C16" && cur_judged && cur_op == "patch_apply") violation("patch-ledger", v + " [" + when + "]");
         discard("ledger violation outside this property's oracles: " + v);
     }
     if (!pool().intact()) {
